@@ -48,8 +48,10 @@ TConfig == Is("Config") /\ l' = l + 1 /\ Trace[l].ttl_s >= 3 * 3600 /\ UNCHANGED
 TPlant == Is("Plant") /\ l' = l + 1 /\ Trace[l].ok /\ UNCHANGED <<acc, pend, offs>>
 \* ("Wedged cid h": 15 s after the handshake arrived the server had neither returned nor gone back to reading - never
 \* allowed: there is no action for it.  The driver skips what follows in that process: the filter's locks are process wide.)
+\* the clock of the bridge was moved forward (the offsets logged with Submit / Result are the ones at submission time)
+TShift == Is("Shift") /\ l' = l + 1 /\ UNCHANGED <<acc, pend, offs>>
 TSkipped == Is("Skipped") /\ l' = l + 1 /\ UNCHANGED <<acc, pend, offs>>
-TNext == TSkipped \/ TPlant \/ TConfig \/ TReset \/ TSubmit \/ TResult \/ TEndBridge
+TNext == TShift \/ TSkipped \/ TPlant \/ TConfig \/ TReset \/ TSubmit \/ TResult \/ TEndBridge
 TraceSpec == TInit /\ [][TNext]_tvars
 HW == TLCSet(1, IF l - 1 > TLCGet(1) THEN l - 1 ELSE TLCGet(1))
 TraceAccepted == IF TLCGet(1) = Len(Trace) THEN TRUE ELSE PrintT(<<"REJECTED_AFTER", TLCGet(1)>>) /\ FALSE
